@@ -231,6 +231,11 @@ static void ring_case(vh_rng* r, const char* who) {
 ** objects and drops them.  When the sweep finalises a PSpawn, these allocations land in the middle of the sweep; at
 ** teardown they land in the middle of the last sweep.  Every PSpawn and every object its destructor made is still
 ** finalised and released exactly once.  The ids of the children are reserved when the PSpawn is made. */
+/* whether THIS HARNESS has stopped the collector of the running thread (the destructor goes by what its program did,
+   not by what it could find out from the collector: a runtime that stops collectors on its own must not be excused) */
+static __thread int harness_stopped;
+#define STOP_GC(G) do { stop(G); harness_stopped = 1; } while (0)
+#define START_GC(G) do { start(G); harness_stopped = 0; } while (0)
 struct PSpawn { int64_t id; int64_t nkids; int64_t canary; };
 static void PSpawn_New(var self, var args) { struct PSpawn* p = self; p->id = c_int(get(args, $I(0))); p->nkids = c_int(get(args, $I(1))); p->canary = MO_CANARY; mo_construct(p->id); }
 static void PSpawn_Del(var self) {
@@ -238,7 +243,7 @@ static void PSpawn_Del(var self) {
   if (!mo_destruct(p->id, p->canary)) { return; }
   p->canary = 0;
   /* (what is allocated while the collector is stopped is nobody's but its maker's: it is deleted by hand at once) */
-  int stopped = !running(current(GC));
+  int stopped = harness_stopped;
   for (int64_t k = 0; k < p->nkids; k++) { var x = new(PNode, $I(p->id + 1 + k)); blk_record(x, p->id + 1 + k); if (stopped) { del(x); } x = NULL; }
 }
 static var PSpawn = Cello(PSpawn, Instance(New, PSpawn_New, PSpawn_Del));
@@ -380,14 +385,14 @@ static void run_ops(vh_rng* r, struct world* w, int nops, const char* who) {
         vh_op("%s garbage x%d (%d with allocating destructors)", who, n, spawners);
       }
     } else if (roll < 93) {
-      if (!w->stopped) { stop(gc); w->stopped = 1; vh_op("%s stop", who); vh_count("stop_windows"); }
-      else { start(gc); w->stopped = 0; vh_op("%s start", who); }
+      if (!w->stopped) { STOP_GC(gc); w->stopped = 1; vh_op("%s stop", who); vh_count("stop_windows"); }
+      else { START_GC(gc); w->stopped = 0; vh_op("%s start", who); }
     } else {
       /* drop a held managed object: it becomes garbage */
       if (h->p && h->how == HK_MANAGED) { h->p = NULL; h->how = HK_NONE; vh_op("%s drop", who); }
     }
   }
-  if (w->stopped) { start(gc); w->stopped = 0; }
+  if (w->stopped) { START_GC(gc); w->stopped = 0; }
 }
 
 /* end of a world: delete by hand what the API says must be deleted by hand; managed objects are left to teardown */
@@ -438,7 +443,7 @@ static var worker_fn(var args) {
   for (int i = 0; i < 10; i++) { int64_t id; var g = new_probe(&r, HK_MANAGED, &id); g = NULL; JOB.garbage_left++; }
   finish_world(&w);
   /* every third worker ends with its collector stopped: teardown still finalises what is registered */
-  if (JOB.seed % 3 == 0) { stop(current(GC)); JOB.ended_stopped = 1; }
+  if (JOB.seed % 3 == 0) { STOP_GC(current(GC)); JOB.ended_stopped = 1; }
   JOB.last_id = id_counter;
   return NULL;
 }
@@ -484,7 +489,7 @@ static void case_process(vh_rng* r, int nops) {
     run_ops(r, &w, nops, "child");
     for (int i = 0; i < 10; i++) { int64_t id; var g = new_probe(r, HK_MANAGED, &id); g = NULL; }
     finish_world(&w);
-    if (vh_chance(r, 35)) { stop(current(GC)); }      /* the program may end with its collector stopped */
+    if (vh_chance(r, 35)) { STOP_GC(current(GC)); }      /* the program may end with its collector stopped */
     exit(vh.violations ? 8 : 0);     /* normal exit: atexit(Cello_Exit) tears the collector down */
   }
   int st = 0;
